@@ -146,7 +146,10 @@ def rule_a1(F):
                 out = set(sin[bi])
                 if t["k"] == "call":
                     tg = tag_of(t)
-                    hb = F.body(mir.callee(t) or "") if (mir.callee(t) or "").startswith("value::list::ffi::") and depth < 2 else None
+                    hb = F.body(mir.callee(t) or "") if (mir.callee(t) or "").startswith("value::list::") and depth < 2 else None
+                    if hb is not None and hb.mir and not (mir.callee(t) or "").startswith("value::list::ffi::") and \
+                            not any(tag_of(t2) is not None or copies(t2) for _, t2 in mir.calls(hb)):
+                        hb = None    # a helper of the list proper is followed when it writes a tag or copies an element (`raw.clone_elem_into(src, dst)`)
                     if tg is not None:
                         out = {(tg, c_) for _, c_ in out}
                     elif hb is not None and hb.mir and hb.path != body.path:
